@@ -177,6 +177,15 @@ def withErrors (errLen : Nat → Nat) (o : Outcome) : Outcome :=
   else if o.ret ≥ 400 then { o with ops := o.ops ++ errorOps errLen o.ret, ret := 0, panics := false }
   else o
 
+/-- The `gzip` middleware between `log` and the handler: like `errors` it answers a returned status
+>= 400 itself (`DefaultErrorFunc` on the writer it was given) and returns 0; a panic passes through.
+The bytes it sends are the COMPRESSED bytes; their number is not computed by the model — statuses
+and line counts are, and sizes are compared as differences (see the stream `c20.log`). -/
+def withGzip (errLen : Nat → Nat) (o : Outcome) : Outcome :=
+  if o.panics then o
+  else if o.ret ≥ 400 then { o with ops := o.ops ++ errorOps errLen o.ret, ret := 0 }
+  else o
+
 /-- `httpserver.Path.Matches` on clean paths (no `.`/`..`/empty segments — what the stream
 generates; the general function is C03's): "/" and "" match everything, otherwise a prefix test on
 the lower-cased text (`CaseSensitivePath` is false by default). -/
